@@ -135,3 +135,12 @@ META['C17'] = dict(
     note='Trusted: undefining the macros reproduces the code a port without those features compiles; endianness-dependent fallbacks cannot be exercised on a little-endian host.',
     technique='differential property-based testing (rapidcheck) between two build configurations of the same tree',
 )
+
+META['C19'] = dict(
+    text='Translation-style differential by generated programs: the ARM64 emitter (portable C++) runs on the host and emits real A64 code next to the cross-assembled hand-written runtime; an instruction-subset emulator '
+         'executes it with all memory accesses region-checked; register file, scratchpad and rounding mode must equal the host interpreter on the same injected program; the emitted dataset-init code must reproduce '
+         'interpreter items. 320 programs + 64 ranges quick / 100k + 20k thorough. Found and fixed: ISUB_R with imm32 = 0x80000000.',
+    note='Trusted: the emulator (emu/a64.hpp, ~60 instruction forms; decode of every executed word cross-checked against llvm-objdump; semantics validated only indirectly by full agreement with the interpreter on the unchanged tree). '
+         'The aarch64-only eMask copy in CompiledVm::execute is done by the harness (blind spot).',
+    technique='differential property-based testing (rapidcheck) of emitted AArch64 code under an instruction-subset emulator vs the interpreter',
+)
